@@ -370,9 +370,15 @@ def rule_skip_guard(ctx):
     c14.rule_skip_guard(ctx)
 
 
+def rule_input_read_complete(ctx):
+    """a prefix of the source accepted as the source is then written over it (shared with C10)"""
+    from . import c10
+    c10.rule_input_read_complete(ctx)
+
+
 def rule_names_not_truncated(ctx):
     from . import c14
     c14.rule_names_not_truncated(ctx)
 
 
-RULES = [rule_tmp_only, rule_inplace_name, rule_output_or_exit, rule_order, rule_rename_owner, rule_write_error_checked, rule_md5_block_invariant, rule_skip_guard, rule_names_not_truncated]
+RULES = [rule_tmp_only, rule_inplace_name, rule_output_or_exit, rule_order, rule_rename_owner, rule_write_error_checked, rule_md5_block_invariant, rule_skip_guard, rule_names_not_truncated, rule_input_read_complete]
